@@ -135,7 +135,7 @@ class Runner:
         env = dict(os.environ)
         env.pop("JSIM_NO_REEXEC", None)
         self.proc = subprocess.Popen([self.exe, "--server"], stdin=subprocess.PIPE, stdout=subprocess.PIPE,
-                                     stderr=subprocess.DEVNULL, text=True, bufsize=1, env=env, cwd=self.dir,
+                                     stderr=subprocess.DEVNULL, text=True, bufsize=1, env=env, cwd="/",
                                      preexec_fn=die_with_parent)
         line = self.proc.stdout.readline()
         if not line.startswith("READY"):
@@ -289,6 +289,10 @@ class Driver:
     def run_seed(self, seed, tier):
         plan = self.gen(seed, tier)
         res, vs = self.execute(plan)
+        if res.outcome == "harness":
+            # the simulator gave up (a table of its own overflowed, ...): never a verdict about Janet
+            last = [e.payload for e in res.events if e.kind == "!harness"]
+            return {"seed": seed, "harness_error": "simulator: %s" % (last[-1] if last else "exit 73")}
         cov = hashlib.sha256((json.dumps(plan, sort_keys=True) + json.dumps(res.faults)).encode()).hexdigest()[:20]
         return {
             "seed": seed, "cov": cov, "nontrivial": bool(self.nontrivial(plan, res)), "outcome": res.outcome,
